@@ -366,3 +366,81 @@ func RunsOf(r []bool) (first bool, runs []int) {
 	}
 	return first, append(runs, n)
 }
+
+// ---------------------------------------------------------------- Code 39
+//
+// Built from the structure of the symbology (ISO/IEC 16388), not from a
+// table: value v < 39 has the "two of five" bar pattern of column (v+... ) and
+// one wide space chosen by its row; $ / + % have narrow bars and three wide
+// spaces. Check character: sum of the values modulo 43.
+
+// Code39Alphabet lists the 43 data characters in value order; 43 is '*'.
+const Code39Alphabet = "0123456789ABCDEFGHIJKLMNOPQRSTUVWXYZ-. $/+%"
+
+var code39Bars = [10]string{"00110", "10001", "01001", "11000", "00101", "10100", "01100", "00011", "10010", "01010"} // column 0..9 (digit d)
+
+// code39Elements returns the nine elements (bar, space, bar, ... bar) of the
+// character with value v (0..42, 43 = start/stop), true = wide.
+func code39Elements(v int) [9]bool {
+	var bars, spaces string
+	switch {
+	case v >= 39 && v <= 42:
+		bars = "00000"
+		spaces = [4]string{"1110", "1101", "1011", "0111"}[v-39]
+	default:
+		// rows of ten: "1234567890", "ABCDEFGHIJ", "KLMNOPQRST", "UVWXYZ-. *"
+		var row, col int
+		switch {
+		case v <= 9:
+			row, col = 0, v // digit d sits in column d (1..9, 0 last: same pattern index)
+		case v == 43:
+			row, col = 3, 0 // '*' is the tenth character of the last row
+		default:
+			k := v - 10 // A = 0
+			row, col = 1+k/10, (k+1)%10
+		}
+		bars = code39Bars[col]
+		spaces = [4]string{"0100", "0010", "0001", "1000"}[row]
+	}
+	var e [9]bool
+	for i := 0; i < 5; i++ {
+		e[2*i] = bars[i] == '1'
+	}
+	for i := 0; i < 4; i++ {
+		e[2*i+1] = spaces[i] == '1'
+	}
+	return e
+}
+
+// Code39Row draws start, the characters with the given values, stop, with
+// narrow elements of one module, wide elements of `wide` modules and a
+// one-module gap between characters.
+func Code39Row(vals []int, wide int) Row {
+	var r Row
+	all := append(append([]int{43}, vals...), 43)
+	for ci, v := range all {
+		e := code39Elements(v)
+		for i, w := range e {
+			n := 1
+			if w {
+				n = wide
+			}
+			for k := 0; k < n; k++ {
+				r = append(r, i%2 == 0)
+			}
+		}
+		if ci != len(all)-1 {
+			r = append(r, false)
+		}
+	}
+	return r
+}
+
+// Code39Check is the optional modulo-43 check character over the data values.
+func Code39Check(data []int) int {
+	s := 0
+	for _, v := range data {
+		s += v
+	}
+	return s % 43
+}
